@@ -28,7 +28,10 @@ def inner_polls(fn):
 
 
 def guard_locals(fn, ty_rx):
-    return [i for i, t in enumerate(fn.locals) if ty_rx.search(t) and i > fn.arg_count and fn.defs(i)]
+    """Locals of the guard type that are produced by a call (temporaries that merely receive a moved guard,
+    e.g. the argument of an explicit drop(guard), are aliases and are handled in guard_release_blocks)."""
+    return [i for i, t in enumerate(fn.locals) if ty_rx.search(t) and i > fn.arg_count
+            and any(d[1] == "term" for d in fn.defs(i))]
 
 
 def guard_release_blocks(fn, g, cleanup=False):
@@ -109,14 +112,14 @@ def check_adapter(ctx, facts, fn, rule_prefix, want_scope=True, want_finish=True
         # R1b: released on every normal path after the poll, and on the unwind path of the poll
         rel = guard_release_blocks(fn, g)
         t = fn.term(pb)
-        ok_n, wit = fn.must_pass([t["target"]], rel) if t["target"] is not None else (True, None)
+        ok_n, wit = fn.must_pass([(pb, t["target"])], rel) if t["target"] is not None else (True, None)
         ctx.check(ok_n and rel, rule_prefix + "R1", fn.path, fn.loc(pb),
                   "the scope guard is released on every return path after the inner poll",
                   "release blocks %s" % rel, "a path from the inner poll to return bb%s passes no release of _%d" % (wit, g),
                   extra="released")
         if isinstance(t.get("unwind"), int):
             relc = guard_release_blocks(fn, g, cleanup=True)
-            ok_u, witu = fn.must_pass([t["unwind"]], relc, cleanup=True,
+            ok_u, witu = fn.must_pass([(pb, t["unwind"])], relc, cleanup=True,
                                       exits=[b for b in range(len(fn.blocks)) if fn.term(b)["k"] in ("resume", "abort")])
             ctx.check(ok_u, rule_prefix + "R1", fn.path, fn.loc(pb),
                       "the scope guard is released when the inner poll unwinds", "",
@@ -178,12 +181,12 @@ def check_adapter(ctx, facts, fn, rule_prefix, want_scope=True, want_finish=True
                     # (a) take is guarded by the finishing edge
                     g_ok = fn.guarded(takes, fin_edges)
                     # (b) from the finishing edge every path to return takes the span
-                    starts = [d for (_, d, _) in fin_edges]
+                    starts = [(a, d) for (a, d, _) in fin_edges]
                     m_ok, wit = fn.must_pass(starts, takes)
                     # (c) not reachable from the non-finishing edges
                     r = set()
-                    for (_, d, _) in other_edges:
-                        r |= fn.reach([d])
+                    for (a, d, _) in other_edges:
+                        r |= fn.reach([(a, d)])
                     n_ok = not (r & set(takes))
                     ctx.check(g_ok and m_ok and n_ok, rule_prefix + "R2", fn.path, fn.loc(takes[0]),
                               "the span is taken on %s and only then" % ("Poll::Ready(None)" if cond == "ready_none" else "Poll::Ready"),
